@@ -1146,13 +1146,18 @@ def _interpret_update(src, index, local_hash, prefix, undecodable=(), garbled=()
              'read_lines_sha256': h_hash('SHA256'), 'read_lines_sha1': h_hash('SHA1'), 'download_gunzip_lines': h_dl_patch, '_download_gunzip': h_dl_any,
              'patches_from_ed_script': h_ed, 'patch_lines': h_patch_lines,
              'download_file': lambda it, a, k: (log.append(('full',)), 'FULL')[1],
-             'replace_file': lambda it, a, k: log.append(('replace', state['hash'])), 'print': lambda it, a, k: None}
+             'replace_file': lambda it, a, k: (state.__setitem__('written', a[0] if a else None), log.append(('replace', state['hash'])))[1], 'print': lambda it, a, k: None}
     heap = H.Heap(mod, hooks=hooks)
     heap.native_regex = True
     it = H.Interp(heap)
     try:
         r = it.call(H.Closure(f.node, {}, None, None), ['REMOTE', 'LOCAL'])
-        return ('return', 'LINES' if isinstance(r, H.Ref) and (r.name == '@locallines' or r == state.get('local_lines')) else r), log
+        if isinstance(r, H.Ref) and isinstance(state.get('written'), H.Ref) and r != state['written']:
+            # what is returned is the list that was written to the local file (a copy made for patching is the result, not the lines read)
+            return ('return', 'a list other than the one written to the local file'), log
+        is_local = isinstance(r, H.Ref) and (r.name == '@locallines' or r == state.get('local_lines') or (
+            heap.is_list(r) and b''.join(y_ if isinstance(y_, bytes) else y_.encode() for y_ in heap.items(r) if isinstance(y_, (str, bytes))) == b'line\n'))
+        return ('return', 'LINES' if is_local else r), log
     except H.Raised as x:
         return ('raise', x.exc), log
 
